@@ -94,6 +94,24 @@ def run(ctx, rep):
             rep.floor("C13.reach", len(seen), 100, "bodies reachable from the API")
             n_loops = R12.check_loops(fx, rep, "C13.loops", seen)
             rep.floor("C13.loops", n_loops, 14, "loops on the API paths")
+    if ctx.tier == "thorough":
+        # walker cross-check over EVERY body of the three crates (not only the reachable ones)
+        fx = ctx.facts("")
+        n_bodies = n_bad = 0
+        for p, b in fx.bodies.items():
+            if b["kind"] not in ("Fn", "AssocFn", "Closure"):
+                continue
+            mc = C.mir_counts(fx, p)
+            if mc is None:
+                continue
+            n_bodies += 1
+            tc = C.thir_counts(C.enumerate_sites(b))
+            if mc != tc:
+                n_bad += 1
+                rep.violation("C13.xcheck", "C13/walker-mismatch/%s" % C.short_fn(p), loc=F.short_file(b["sp"]), found="typed-tree sites %s" % tc,
+                              expected="MIR asserts %s" % mc, detail="census walker blind spot (checker problem)")
+        rep.ok("C13.xcheck", "C13/walker-crosscheck", found="%d bodies of proguard+watto+leb128: typed-tree site counts == MIR Assert counts (%d mismatches)" % (n_bodies, n_bad)) if not n_bad else None
+        rep.floor("C13.xcheck", n_bodies, 250, "bodies cross-checked")
     CR.run_controls(ctx, rep, "C13.census")
     rep.assumptions += ["A-size: mapping input < 4 GiB", "allocation failure / stack exhaustion out of scope",
                         "io::Write for Vec<u8> and fmt::Write for String are infallible (std facts)"]
